@@ -72,7 +72,7 @@ Alive(st) == st \in {"init", "sleep", "running", "wait"}
 
 Init ==
   /\ state = (IF WithSpawn THEN "init" ELSE "sleep") /\ inTable = ~WithSpawn
-  /\ sp = (IF WithSpawn THEN [pc |-> "start", named |-> FALSE] ELSE [pc |-> "none", named |-> FALSE])
+  /\ sp = (IF WithSpawn THEN [pc |-> "start", named |-> FALSE] ELSE [pc |-> "none", named |-> TRUE])
   /\ mbox = [q \in QSet |-> <<>>]
   /\ spc = [s \in Senders |-> IF Len(Ops[s]) = 0 THEN "done" ELSE "send.lookup"]
   /\ sn = [s \in Senders |-> 1]
